@@ -3,7 +3,9 @@ package otto
 import (
 	"fmt"
 	"math"
+	"slices"
 	"strings"
+	"unicode/utf16"
 
 	"github.com/robertkrimen/otto/token"
 )
@@ -142,6 +144,25 @@ const (
 	lessThanUndefined
 )
 
+// stringLessThan compares two strings by UTF-16 code units (11.8.5 step 4).
+// Go compares UTF-8 bytes, i.e. code points, which orders differently only when
+// a supplementary character (a surrogate pair, lead unit 0xD800-0xDBFF) meets a
+// character in U+E000-U+FFFF.
+func stringLessThan(x, y string) bool {
+	supplementary := func(s string) bool {
+		for i := range len(s) {
+			if s[i] >= 0xF0 {
+				return true
+			}
+		}
+		return false
+	}
+	if !supplementary(x) && !supplementary(y) {
+		return x < y
+	}
+	return slices.Compare(utf16.Encode([]rune(x)), utf16.Encode([]rune(y))) < 0
+}
+
 func calculateLessThan(left Value, right Value, leftFirst bool) lessThanResult {
 	var x, y Value
 	if leftFirst {
@@ -160,8 +181,7 @@ func calculateLessThan(left Value, right Value, leftFirst bool) lessThanResult {
 		}
 		result = x < y
 	} else {
-		x, y := x.string(), y.string()
-		result = x < y
+		result = stringLessThan(x.string(), y.string())
 	}
 
 	if result {
